@@ -266,6 +266,41 @@ impl<E> CQueue<E> {
             return unsafe { self.buckets[self.head].pop_min().unwrap_unchecked() };
         }
     }
+
+    ///
+    /// Returns the timestamp of the event that the next call to
+    /// `fetch_next` will return, or `None` if the queue is empty.
+    ///
+    /// The queue is left untouched: neither the stored events,
+    /// nor the lower bound for new events (see `time`) change.
+    ///
+    #[must_use]
+    pub fn peek_time(&self) -> Option<Duration> {
+        if self.is_empty() {
+            return None;
+        }
+
+        if let Some((_, time, _)) = self.zero_event_bucket.front() {
+            return Some(*time);
+        }
+
+        // Same search as in `fetch_next`, but on a copy of the window.
+        // The window itself must stay put, since events that are added
+        // before the next fetch may still belong into an earlier bucket.
+        let mut head = self.head;
+        let mut t1 = self.t1;
+        loop {
+            if !self.buckets[head].is_empty() {
+                let min = self.buckets[head].front_time();
+                if min <= t1 {
+                    return Some(min);
+                }
+            }
+
+            head = (head + 1) % self.n;
+            t1 += self.t;
+        }
+    }
 }
 
 impl<E> Default for CQueue<E> {
